@@ -684,10 +684,12 @@ def solver_e2e_job(job):
 
     kind, seed = job["solver"], job["seed"]
     rng = random.Random(seed)
-    D = rng.choice([1, 2, 3])
-    lo, hi = -1.0 - rng.random(), 1.0 + rng.random()
-    u_min = {"p": jnp.ones((D,)) * lo}
-    u_max = {"p": jnp.ones((D,)) * hi}
+    D = rng.choice([1, 2, 3]) if kind == "cem" else rng.choice([2, 3])
+    # per-dimension bounds (a tight interval next to a wide one: a bound applied to the wrong dimension, or the loosest one to all, shows)
+    lo = onp.array([-1.0 - rng.random() if j % 2 == 0 else -0.1 - 0.1 * rng.random() for j in range(D)], dtype=onp.float32)
+    hi = onp.array([1.0 + rng.random() if j % 2 == 0 else 0.1 + 0.1 * rng.random() for j in range(D)], dtype=onp.float32)
+    u_min = {"p": jnp.asarray(lo)}
+    u_max = {"p": jnp.asarray(hi)}
     nan_at = rng.choice([0.2, 0.5, -0.1])
     seen = []
 
@@ -710,7 +712,7 @@ def solver_e2e_job(job):
         ns = rng.choice([4, 8, 16, 32])
         solver = CEMSolver.init(u_min=u_min, u_max=u_max, num_samples=ns, evolution_smoothing=rng.choice([0.0, 0.1, 0.5, 0.9]),
                                 elite_portion=rng.choice([0.26, 0.3, 0.5]))
-        state = solver.init_state(mean={"p": jnp.ones((D,)) * rng.uniform(lo, hi)})
+        state = solver.init_state(mean={"p": jnp.asarray(lo + (hi - lo) * rng.random())})
         for k in range(T):
             key, sub = jax.random.split(key)
             n0 = len(seen)
@@ -723,7 +725,7 @@ def solver_e2e_job(job):
 
         strat = rng.choice(["CMA_ES", "OpenES", "SimpleGA"])
         solver = EvoSolver.init(u_min, u_max, strat, strategy_kwargs=dict(popsize=rng.choice([4, 8, 16])))
-        state = solver.init_state({"p": jnp.ones((D,)) * rng.uniform(lo, hi)}, rng=key)
+        state = solver.init_state({"p": jnp.asarray(lo + (hi - lo) * rng.random())}, rng=key)
         for k in range(T):
             key, sub = jax.random.split(key)
             n0 = len(seen)
@@ -782,7 +784,7 @@ def c18(tier, seed):
     rep.sample(dict(history=[[0, -1, 2], [-1, -1, 1]], meaning="-1 = NaN; replayed on rex.cem.cem_update_mean_stdev with one-hot candidates"))
     # end-to-end runs
     jobs = []
-    for i in range(6 if quick else 60):
+    for i in range(10 if quick else 60):
         jobs.append(dict(kind="pyfunc", module="harness.checks.smallchecks", func="solver_e2e_job", id=f"c18e{i}", solver=("cem" if i % 2 == 0 else "evo"), seed=seed * 100 + i,
                          steps=6 if quick else 12, timeout=900))
     results = common.run_jobs(jobs)
@@ -887,6 +889,15 @@ def rlw_replay_job(job):
                 return gs
             return gs.replace_aux({"clock": gs.aux["clock"] + 1})
 
+        def update_graph_state_pre_step(self, gs, action):
+            # the pre-step hook writes into the supervisor's OWN step state (e.g. "remember the last action"): the graph's step must be given
+            # the step state of the graph state the hook returned
+            from flax.core import FrozenDict
+            from ..probes import ProbeState
+            ss = gs.step_state["agent"]
+            new_ss = ss.replace(state=ProbeState(h=jnp.round(action[0] * 1000).astype(jnp.int32) + 5000))
+            return gs.replace_step_states({"agent": new_ss})
+
         def reset(self, rng=None):
             gs, obs, info = super().reset(rng)
             z = jnp.zeros((L + 1,))
@@ -948,6 +959,11 @@ def rlw_replay_job(job):
                     last = int(onp.asarray(gs.seq["agent"]).reshape(-1)[0]) - 1
                     idx = [i for i, s in enumerate(seqs) if s == last]
                     exp_a = (onp.tanh(a) * (HIGH - LOW) / 2 + (HIGH + LOW) / 2) if (squash and variant.get("wrapper", "squash") == "squash") else min(max(a, LOW), HIGH)
+                    hook_h = int(onp.asarray(gs.state["agent"].h).reshape(-1)[0])
+                    if abs(hook_h - (round(exp_a * 1000) + 5000)) > 1:
+                        bad = dict(step=k, what="the supervisor's state written by update_graph_state_pre_step is what the graph's step was given", action=a,
+                                   expected=round(exp_a * 1000) + 5000, got=hook_h)
+                        break
                     if not idx or abs(hs_[idx[0]] - round(exp_a * 1000)) > 1 or not (LOW * 1000 - 1 <= hs_[idx[0]] <= HIGH * 1000 + 1):
                         bad = dict(step=k, what="supervisor output is the (squashed/clipped) action", action=a, expected=round(exp_a * 1000),
                                    got=(int(hs_[idx[0]]) if idx else None))
